@@ -29,6 +29,7 @@ var (
 	flagTier     = flag.String("tier", "quick", "quick|thorough")
 	flagRepo     = flag.String("repo", "/repo", "repository root")
 	flagVerif    = flag.String("verif", "/verif", "verification root")
+	flagOutRoot  = flag.String("outroot", "", "where evidence/ and out/ are written (default: the verification root); used to run against scratch worktrees")
 	flagJobs     = flag.Int("jobs", 16, "parallel workers")
 	flagOnly     = flag.String("only", "", "regexp: run only harness items whose label matches")
 	flagTrace    = flag.Bool("trace", false, "trace instructions")
@@ -91,6 +92,13 @@ type itemResult struct {
 	Steps      int               `json:"steps"`
 	Funcs      []string          `json:"-"`
 	ExpectSat  bool              `json:"expect_sat,omitempty"`
+}
+
+func outRoot() string {
+	if *flagOutRoot != "" {
+		return *flagOutRoot
+	}
+	return *flagVerif
 }
 
 func main() {
@@ -655,7 +663,7 @@ func report(prop string, specs []*harnessSpec, items []item, results []*itemResu
 			if strings.HasPrefix(v.Msg, "asm ") && !*flagNoReplay {
 				// memory-safety / control-flow violation of the assembly text found by the interpreter:
 				// native execution cannot confirm a stray read; it is reported on the interpreter's evidence
-				dir := filepath.Join(*flagVerif, "out", "replay", prop)
+				dir := filepath.Join(outRoot(), "out", "replay", prop)
 				os.MkdirAll(dir, 0o755)
 				rp = filepath.Join(dir, strings.NewReplacer(" ", "_", "=", "").Replace(r.Label)+fmt.Sprintf("_%d.asm.txt", vi))
 				os.WriteFile(rp, []byte(v.Msg+"\n"), 0o644)
@@ -756,9 +764,9 @@ func report(prop string, specs []*harnessSpec, items []item, results []*itemResu
 			"exhaustive":          false,
 		},
 	}
-	os.MkdirAll(filepath.Join(*flagVerif, "evidence"), 0o755)
+	os.MkdirAll(filepath.Join(outRoot(), "evidence"), 0o755)
 	b, _ := json.MarshalIndent(ev, "", " ")
-	if err := os.WriteFile(filepath.Join(*flagVerif, "evidence", prop+".json"), b, 0o644); err != nil {
+	if err := os.WriteFile(filepath.Join(outRoot(), "evidence", prop+".json"), b, 0o644); err != nil {
 		fmt.Fprintf(os.Stderr, "cannot write evidence: %v\n", err)
 		exit = max(exit, 2)
 	}
@@ -790,7 +798,7 @@ func readMeta(p string) metaT {
 // replay runs the harness natively with the model values and reports whether a
 // failed assertion or a panic is observed.
 func replay(prop string, it item, r *itemResult, vi int, v sym.Violation, overlay map[string][]byte) (path string, confirmed bool, detail string) {
-	dir := filepath.Join(*flagVerif, "out", "replay", prop)
+	dir := filepath.Join(outRoot(), "out", "replay", prop)
 	os.MkdirAll(dir, 0o755)
 	base := strings.NewReplacer(" ", "_", "=", "").Replace(it.Label) + fmt.Sprintf("_%d", vi)
 	modelPath := filepath.Join(dir, base+".json")
